@@ -37,9 +37,13 @@ Section F.
   (* the generic step: a format whose loader mapping is [mapping_from 0 cs] and whose writer prints [TOKS cs]
      for every particle that has the scheme's columns set and satisfies the side condition [extra]
      (e.g. "the optional trailing columns are unset") *)
-  Theorem row_rt_scheme (format : string) (attrs : list string) (ncols : nat) (cs : scheme)
+  Theorem row_rt_scheme (format : string) (attrs : list string) (ncols : nat) (cs ex : scheme)
           (extra : particle -> Prop) (p : particle) (vs : list Q) :
-    mapping_of format attrs = Ok (mapping_from 0 cs) ->
+    mapping_of format attrs = Ok (mapping_from 0 (cs ++ ex)%list) ->
+    (* the loader accepts a line with the columns of cs only *)
+    ((format =? "ASCII") || (List.length cs =? List.length (cs ++ ex)%list)%nat
+     || (mem_str format gen_relaxed_formats && (List.length cs <=? List.length (cs ++ ex)%list)%nat
+         && (List.length (cs ++ ex)%list - gen_relax_slack <=? List.length cs)%nat)) = true ->
     forallb (cast_ok (format =? "ASCII")) cs = true ->
     NoDup (map s_slot cs) -> Forall (fun c => (s_slot c < 25)%nat) cs -> ~ In 10%nat (map s_slot cs) ->
     has_vals cs p vs -> extra p ->
@@ -47,19 +51,18 @@ Section F.
     (forall p1 vs1, has_vals cs p1 vs1 -> extra p1 -> FP format attrs ncols p1 = Ok (TOKS cs vs1)) ->
     row_rt tok_float tok_int pdg_valid fmt format attrs ncols p.
   Proof.
-    intros Hmap Hcast Hnd Hlt H10 Hv Hex Hex' Hw.
+    intros Hmap Hok Hcast Hnd Hlt H10 Hv Hex Hex' Hw.
     pose proof (has_vals_length cs p vs Hv) as Hl.
     destruct (row_roundtrip tok_float tok_int fmt rnd parse_float parse_int (format =? "ASCII") cs vs blank
                 Hl Hcast Hnd Hlt eq_refl) as (p1 & Hfill & Hslots & Hother & Hlen).
     exists (TOKS cs vs), (set_pdg_valid pdg_valid p1).
     split; [apply (Hw p vs Hv Hex)|]. split; [apply toks_numeric|]. split.
     - unfold mk_particle. rewrite Hmap. cbn [bind].
-      assert (Hlm : List.length (mapping_from 0 cs) = List.length cs).
-      { unfold mapping_from. rewrite map_length. clear. generalize 0%nat.
-        induction cs as [|c t IH]; intros i; cbn; [reflexivity|now rewrite IH]. }
-      rewrite (toks_length fmt cs vs Hl), Hlm, Nat.eqb_refl.
-      replace ((format =? "ASCII") || true || _) with true by (destruct (format =? "ASCII"); reflexivity).
-      rewrite Hfill. reflexivity.
+      assert (Hlm : forall l, List.length (mapping_from 0 l) = List.length l).
+      { intros l. unfold mapping_from. rewrite map_length. generalize 0%nat.
+        induction l as [|c t IH]; intros i; cbn; [reflexivity|now rewrite IH]. }
+      rewrite (toks_length fmt cs vs Hl), Hlm, Hok.
+      rewrite (fill_extra tok_float tok_int fmt (format =? "ASCII") cs ex vs blank Hl), Hfill. reflexivity.
     - assert (Hs10 : forall s, s <> 10%nat -> get_slot s (set_pdg_valid pdg_valid p1) = get_slot s p1).
       { intros s Hs. unfold set_pdg_valid. destruct (get_slot 9 p1); apply get_set_other; congruence. }
       assert (Hv' : has_vals cs (set_pdg_valid pdg_valid p1)
@@ -127,7 +130,8 @@ Section F.
     has_vals cs_2013 p vs -> row_rt tok_float tok_int pdg_valid fmt "Oscar2013" [] ncols p.
   Proof.
     intros Hv.
-    apply (row_rt_scheme "Oscar2013" [] ncols cs_2013 (fun _ => True) p vs); try exact I; try (intros; exact I).
+    apply (row_rt_scheme "Oscar2013" [] ncols cs_2013 [] (fun _ => True) p vs); try exact I; try (intros; exact I).
+    - vm_compute. reflexivity.
     - vm_compute. reflexivity.
     - vm_compute. reflexivity.
     - apply nodup_nat. vm_compute. reflexivity.
@@ -149,7 +153,8 @@ Section F.
     has_vals cs_ext22 p vs -> row_rt tok_float tok_int pdg_valid fmt "Oscar2013Extended" [] 22 p.
   Proof.
     intros Hv.
-    apply (row_rt_scheme "Oscar2013Extended" [] 22 cs_ext22 (fun _ => True) p vs); try exact I; try (intros; exact I).
+    apply (row_rt_scheme "Oscar2013Extended" [] 22 cs_ext22 [] (fun _ => True) p vs); try exact I; try (intros; exact I).
+    - vm_compute. reflexivity.
     - vm_compute. reflexivity.
     - vm_compute. reflexivity.
     - apply nodup_nat. vm_compute. reflexivity.
@@ -172,6 +177,222 @@ Section F.
       change (wcols_ext20 ++ [wcol_baryon] ++ [wcol_strange])%list with (wcols_ext20 ++ [wcol_baryon; wcol_strange])%list.
       rewrite (col_values _ p1 vs1 Hm). cbn [bind Nat.sub repeat].
       apply zipfmt_scheme; [reflexivity|]. apply has_vals_length in Hv1. rewrite Hv1. reflexivity.
+  Qed.
+
+  (* ---------------------------------------------------------------- Oscar2013Extended, 20 and 21 columns
+     (old SMASH output without baryon number / strangeness): the loader's table has 22 entries, the trailing
+     ones are skipped for a shorter line; the writer prints the optional columns only when they are set *)
+  Definition cs_ext20 : scheme := mk_scheme wcols_ext20 gen_format_extended.
+  Definition ex_ext20 : scheme := mk_scheme [wcol_baryon; wcol_strange] [gen_format_extension; gen_format_extension].
+  Definition cs_ext21 : scheme := mk_scheme (wcols_ext20 ++ [wcol_baryon]) (gen_format_extended ++ [gen_format_extension]).
+  Definition ex_ext21 : scheme := mk_scheme [wcol_strange] [gen_format_extension].
+
+  Theorem row_rt_ext20 p vs :
+    has_vals cs_ext20 p vs -> get_slot 22 p = None -> get_slot 23 p = None ->
+    row_rt tok_float tok_int pdg_valid fmt "Oscar2013Extended" [] 20 p.
+  Proof.
+    intros Hv H22 H23.
+    apply (row_rt_scheme "Oscar2013Extended" [] 20 cs_ext20 ex_ext20
+             (fun q => get_slot 22 q = None /\ get_slot 23 q = None) p vs).
+    - vm_compute. reflexivity.
+    - vm_compute. reflexivity.
+    - vm_compute. reflexivity.
+    - apply nodup_nat. vm_compute. reflexivity.
+    - repeat constructor; cbn; lia.
+    - vm_compute. intuition discriminate.
+    - exact Hv.
+    - split; assumption.
+    - intros p1 Hb. split; (rewrite Hb; [reflexivity|vm_compute; intuition discriminate|discriminate]).
+    - intros p1 vs1 Hv1 (E22 & E23).
+      pose proof (has_vals_scheme wcols_ext20 gen_format_extended p1 vs1 eq_refl Hv1) as Hm.
+      unfold format_particle, row_values, row_formats, wcols_of.
+      change ("Oscar2013Extended" =? "ASCII") with false. change ("Oscar2013Extended" =? "Oscar2013") with false.
+      change ("Oscar2013Extended" =? "Oscar2013Extended") with true. cbv iota. cbn [orb bind]. rewrite E22, E23. cbn [bind].
+      change (wcols_ext20 ++ [] ++ [])%list with (wcols_ext20 ++ [])%list. rewrite app_nil_r.
+      rewrite (col_values _ p1 vs1 Hm). cbn [bind Nat.sub repeat]. rewrite app_nil_r.
+      apply zipfmt_scheme; [reflexivity|]. apply has_vals_length in Hv1. rewrite Hv1. reflexivity.
+  Qed.
+
+  Theorem row_rt_ext21 p vs :
+    has_vals cs_ext21 p vs -> get_slot 23 p = None ->
+    row_rt tok_float tok_int pdg_valid fmt "Oscar2013Extended" [] 21 p.
+  Proof.
+    intros Hv H23.
+    apply (row_rt_scheme "Oscar2013Extended" [] 21 cs_ext21 ex_ext21 (fun q => get_slot 23 q = None) p vs).
+    - vm_compute. reflexivity.
+    - vm_compute. reflexivity.
+    - vm_compute. reflexivity.
+    - apply nodup_nat. vm_compute. reflexivity.
+    - repeat constructor; cbn; lia.
+    - vm_compute. intuition discriminate.
+    - exact Hv.
+    - exact H23.
+    - intros p1 Hb. rewrite Hb; [reflexivity|vm_compute; intuition discriminate|discriminate].
+    - intros p1 vs1 Hv1 E23.
+      pose proof (has_vals_scheme (wcols_ext20 ++ [wcol_baryon]) (gen_format_extended ++ [gen_format_extension]) p1 vs1 eq_refl Hv1) as Hm.
+      assert (H22 : exists b, get_slot 22 p1 = Some b).
+      { apply (f_equal (fun l => nth 20 l None)) in Hm. cbn [wcols_ext20 wcols_2013 app map nth wcol_baryon fst snd] in Hm.
+        rewrite Hm. apply has_vals_length in Hv1. do 21 (destruct vs1 as [|? vs1]; [discriminate|]). eexists; reflexivity. }
+      destruct H22 as (b22 & E22).
+      unfold format_particle, row_values, row_formats, wcols_of.
+      change ("Oscar2013Extended" =? "ASCII") with false. change ("Oscar2013Extended" =? "Oscar2013") with false.
+      change ("Oscar2013Extended" =? "Oscar2013Extended") with true. cbv iota. cbn [orb bind]. rewrite E22, E23. cbn [bind].
+      change (wcols_ext20 ++ [wcol_baryon] ++ [])%list with (wcols_ext20 ++ [wcol_baryon])%list.
+      rewrite (col_values _ p1 vs1 Hm). cbn [bind Nat.sub repeat].
+      apply zipfmt_scheme; [reflexivity|]. apply has_vals_length in Hv1. rewrite Hv1. reflexivity.
+  Qed.
+
+  (* ---------------------------------------------------------------- custom ASCII files: ANY duplicate-free list of
+     known attribute names, in any order *)
+  Definition ascii_entry (a : string) : option (string * nat * colfmt) :=
+    match assoc a attr_table, assoc a gen_format_map, assoc a allfields with
+    | Some (s, _), Some f, Some (s', _) => if (s =? s')%nat then Some (a, s, f) else None
+    | _, _, _ => None
+    end.
+  Definition known (a : string) : Prop := exists e, ascii_entry a = Some e.
+  Definition cs_ascii (attrs : list string) : scheme :=
+    flat_map (fun a => match ascii_entry a with Some e => [e] | None => [] end) attrs.
+
+  Lemma ascii_entry_shape a e : ascii_entry a = Some e ->
+    exists s isint f c, e = (a, s, f) /\ assoc a attr_table = Some (s, isint) /\ assoc a gen_format_map = Some f /\
+                        assoc a allfields = Some (s, c).
+  Proof.
+    unfold ascii_entry. destruct (assoc a attr_table) as [[s isint]|]; [|discriminate].
+    destruct (assoc a gen_format_map) as [f|]; [|discriminate].
+    destruct (assoc a allfields) as [[s' c]|]; [|discriminate].
+    destruct (Nat.eqb_spec s s') as [<-|]; [|discriminate]. intros H. inversion H; subst.
+    exists s, isint, f, c. repeat split; reflexivity.
+  Qed.
+
+  Lemma assoc_in {A} a (l : list (string * A)) v : assoc a l = Some v -> In a (map fst l).
+  Proof.
+    induction l as [|[k w] l IH]; [discriminate|]. cbn [assoc map fst].
+    destruct (String.eqb_spec a k) as [->|]; [left; reflexivity|right; apply IH; assumption].
+  Qed.
+
+  Lemma index_of_app_notin a : forall pre t, ~ In a pre -> index_of a (pre ++ a :: t)%list = Some (List.length pre).
+  Proof.
+    induction pre as [|x pre IH]; intros t H; cbn [app index_of List.length].
+    - rewrite String.eqb_refl. reflexivity.
+    - destruct (String.eqb_spec a x) as [->|]; [exfalso; apply H; left; reflexivity|].
+      rewrite IH by (intros Hin; apply H; right; exact Hin). reflexivity.
+  Qed.
+
+  Lemma mem_str_in a l : mem_str a l = true <-> In a l.
+  Proof.
+    unfold mem_str. rewrite existsb_exists. split.
+    - intros (x & Hin & E). apply String.eqb_eq in E. subst. exact Hin.
+    - intros H. exists a. split; [exact H|apply String.eqb_refl].
+  Qed.
+
+  Lemma ascii_mapping_ok : forall t pre seen,
+    NoDup (pre ++ t)%list -> Forall known t -> (forall x, In x seen <-> In x pre) ->
+    ascii_mapping t (pre ++ t)%list seen = Ok (mapping_from (List.length pre) (cs_ascii t)).
+  Proof.
+    induction t as [|a t IH]; intros pre seen Hnd Hk Hseen; [reflexivity|].
+    inversion Hk as [|? ? (e & He) Hk']; subst.
+    destruct (ascii_entry_shape a e He) as (s & isint & f & c & -> & _ & _ & Hall).
+    cbn [ascii_mapping]. fold allfields. unfold allfields in Hall |- *.
+    destruct (assoc "Allfields" gen_mapping) as [allf|] eqn:Eall; [|discriminate].
+    rewrite Hall.
+    assert (Hsplit : (pre ++ a :: t)%list = ((pre ++ [a]) ++ t)%list) by (rewrite <- app_assoc; reflexivity).
+    rewrite Hsplit. rewrite (IH (pre ++ [a])%list (a :: seen)).
+    - cbn [bind].
+      assert (Hnotin : ~ In a pre).
+      { intros Hin. apply NoDup_remove_2 in Hnd. apply Hnd. apply in_or_app. left. exact Hin. }
+      replace (mem_str a seen) with false
+        by (symmetry; destruct (mem_str a seen) eqn:E; [exfalso; apply Hnotin, Hseen, mem_str_in, E|reflexivity]).
+      rewrite <- Hsplit. rewrite (index_of_app_notin a pre t Hnotin).
+      unfold cs_ascii. cbn [flat_map]. rewrite He. cbn [app]. unfold mapping_from. cbn [enum_from map fst snd s_attr s_slot].
+      rewrite app_length. cbn [List.length]. rewrite Nat.add_1_r. reflexivity.
+    - rewrite <- Hsplit. exact Hnd.
+    - exact Hk'.
+    - intros x. cbn [In]. rewrite in_app_iff. cbn [In]. rewrite Hseen. tauto.
+  Qed.
+
+  (* finite facts about the 22 known attributes, on the regenerated tables *)
+  Lemma known_cast : forallb (fun a => match ascii_entry a with Some e => cast_ok true e | None => true end)
+                             (map fst attr_table) = true.
+  Proof. vm_compute. reflexivity. Qed.
+  Lemma known_slots : forallb (fun a => match ascii_entry a with Some e => (s_slot e <? 25)%nat && negb (s_slot e =? 10)%nat | None => true end)
+                              (map fst attr_table) = true.
+  Proof. vm_compute. reflexivity. Qed.
+  Lemma table_slots_nodup : NoDup (map (fun e : string * (nat * bool) => fst (snd e)) attr_table).
+  Proof. apply nodup_nat. vm_compute. reflexivity. Qed.
+
+  Lemma assoc_inj_slot : forall (l : list (string * (nat * bool))) a b s i1 i2,
+    NoDup (map (fun e : string * (nat * bool) => fst (snd e)) l) ->
+    assoc a l = Some (s, i1) -> assoc b l = Some (s, i2) -> a = b.
+  Proof.
+    induction l as [|[k [s0 i0]] l IH]; intros a b s i1 i2 Hnd Ha Hb; [discriminate|].
+    inversion Hnd as [|? ? Hnotin Hnd']; subst. cbn [assoc] in Ha, Hb. cbn [map fst snd] in Hnotin.
+    assert (Hin : forall x i, assoc x l = Some (s0, i) -> False).
+    { intros x i Hx. apply Hnotin. clear - Hx. induction l as [|[k' [s' i']] l IHl]; [discriminate|].
+      cbn [assoc] in Hx. cbn [map fst snd]. destruct (x =? k'); [inversion Hx; subst; left; reflexivity|right; apply IHl, Hx]. }
+    destruct (String.eqb_spec a k) as [->|Ha'], (String.eqb_spec b k) as [->|Hb']; try reflexivity.
+    - inversion Ha; subst. exfalso. eapply Hin; eauto.
+    - inversion Hb; subst. exfalso. eapply Hin; eauto.
+    - eapply IH; eauto.
+  Qed.
+
+  Lemma cs_ascii_facts : forall attrs, NoDup attrs -> Forall known attrs ->
+    forallb (cast_ok true) (cs_ascii attrs) = true /\ NoDup (map s_slot (cs_ascii attrs)) /\
+    Forall (fun c => (s_slot c < 25)%nat) (cs_ascii attrs) /\ ~ In 10%nat (map s_slot (cs_ascii attrs)) /\
+    (forall x, In x (map s_slot (cs_ascii attrs)) -> exists a i, In a attrs /\ assoc a attr_table = Some (x, i)).
+  Proof.
+    induction attrs as [|a attrs IH]; intros Hnd Hk.
+    - cbn. repeat split; try constructor; try tauto.
+    - inversion Hnd as [|? ? Hnotin Hnd']; subst. inversion Hk as [|? ? (e & He) Hk']; subst.
+      destruct (IH Hnd' Hk') as (C1 & C2 & C3 & C4 & C5).
+      destruct (ascii_entry_shape a e He) as (s & isint & f & c & -> & Hat & _ & _).
+      assert (Hina : In a (map fst attr_table)) by (eapply assoc_in; eauto).
+      pose proof known_cast as KC. rewrite forallb_forall in KC. specialize (KC a Hina). rewrite He in KC.
+      pose proof known_slots as KS. rewrite forallb_forall in KS. specialize (KS a Hina). rewrite He in KS.
+      apply andb_true_iff in KS. destruct KS as [KS1 KS2]. apply Nat.ltb_lt in KS1.
+      apply negb_true_iff, Nat.eqb_neq in KS2. cbn [s_slot fst snd] in KS1, KS2.
+      unfold cs_ascii. cbn [flat_map]. rewrite He. cbn [app]. fold (cs_ascii attrs).
+      cbn [forallb map s_slot fst snd]. repeat split.
+      + rewrite KC, C1. reflexivity.
+      + constructor; [|exact C2]. intros Hin. destruct (C5 s Hin) as (b & i & Hb & Hbt).
+        assert (a = b) by (eapply assoc_inj_slot; [exact table_slots_nodup|exact Hat|exact Hbt]). subst. contradiction.
+      + constructor; [exact KS1|exact C3].
+      + intros [E|Hin]; [congruence|contradiction].
+      + intros x [<-|Hin]; [exists a, isint; split; [left; reflexivity|exact Hat]|].
+        destruct (C5 x Hin) as (b & i & Hb & Hbt). exists b, i. split; [right; exact Hb|exact Hbt].
+  Qed.
+
+  Lemma ascii_writer : forall attrs ncols p1 vs1, Forall known attrs ->
+    has_vals (cs_ascii attrs) p1 vs1 -> FP "ASCII" attrs ncols p1 = Ok (TOKS (cs_ascii attrs) vs1).
+  Proof.
+    intros attrs ncols p1. unfold format_particle, row_values, row_formats.
+    change ("ASCII" =? "ASCII") with true. change ("ASCII" =? "Oscar2013") with false.
+    change ("ASCII" =? "Oscar2013Extended") with false. change ("ASCII" =? "Oscar2013Extended_IC") with false. cbv iota. cbn [orb].
+    induction attrs as [|a attrs IH]; intros vs1 Hk Hv.
+    - destruct vs1; [reflexivity|discriminate].
+    - inversion Hk as [|? ? (e & He) Hk']; subst.
+      destruct (ascii_entry_shape a e He) as (s & isint & f & c & -> & Hat & Hfm & _).
+      unfold has_vals, cs_ascii in Hv. cbn [flat_map] in Hv. rewrite He in Hv. cbn [app map s_slot fst snd] in Hv.
+      fold (cs_ascii attrs) in Hv. destruct vs1 as [|v vs1]; [discriminate|]. cbn [map] in Hv. injection Hv as Hv0 Hvr.
+      specialize (IH vs1 Hk' Hvr).
+      cbn [mapr]. rewrite Hat, Hfm. unfold col_value at 1. cbn [fst snd]. rewrite Hv0. cbn [bind].
+      destruct (mapr _ attrs) as [vals|] eqn:E1; [|cbn [bind] in IH; discriminate]. cbn [bind] in IH |- *.
+      destruct (mapr (fun a0 => match assoc a0 gen_format_map with Some f0 => Ok f0 | None => Err KeyError end) attrs) as [fs|] eqn:E2;
+        [|cbn [bind] in IH; discriminate].
+      cbn [bind] in IH |- *. cbn [zipfmt]. rewrite IH. cbn [bind].
+      unfold cs_ascii. cbn [flat_map]. rewrite He. reflexivity.
+  Qed.
+
+  Theorem row_rt_ascii attrs ncols p vs :
+    NoDup attrs -> Forall known attrs -> has_vals (cs_ascii attrs) p vs ->
+    row_rt tok_float tok_int pdg_valid fmt "ASCII" attrs ncols p.
+  Proof.
+    intros Hnd Hk Hv. destruct (cs_ascii_facts attrs Hnd Hk) as (C1 & C2 & C3 & C4 & _).
+    apply (row_rt_scheme "ASCII" attrs ncols (cs_ascii attrs) [] (fun _ => True) p vs); try exact I; try (intros; exact I);
+      try assumption.
+    - rewrite app_nil_r. unfold mapping_of. change ("ASCII" =? "ASCII") with true. cbv iota.
+      apply (ascii_mapping_ok attrs [] []); [exact Hnd|exact Hk|tauto].
+    - reflexivity.
+    - intros p1 vs1 Hv1 _. apply ascii_writer; assumption.
   Qed.
 
   (* ---------------------------------------------------------------- composition for Oscar2013 *)
@@ -206,5 +427,50 @@ Section F.
     destruct (read_back tok_float tok_int pdg_valid fmt dec s "Oscar2013" [] Hi Hp Hne Hwf) as (file & Hw & Hl).
     exists file. repeat split; try assumption.
     rewrite (rewrite_fixpoint tok_float tok_int pdg_valid fmt dec s Hi Hne Hrt). exact Hw.
+  Qed.
+
+  (* the same composition for any format, given the row round trip of every held particle *)
+  Theorem oscar_roundtrip_generic s :
+    Inv s -> os_events s <> [] ->
+    oscar_format (nth 0 (os_header s) []) = Ok (os_format s, os_attrs s) -> std_format (os_format s) ->
+    kind_scan (nth 0 (os_header s) []) = SOther -> kind_scan (nth 1 (os_header s) []) = SOther ->
+    kind_scan (nth 2 (os_header s) []) = SOther ->
+    footers_std tok_float (os_footers s) (os_counts s) ->
+    Forall (Forall (row_rt tok_float tok_int pdg_valid fmt (os_format s) (os_attrs s) (ncols_of s))) (os_events s) ->
+    exists file,
+      write_oscar fmt dec s = Ok file /\
+      load tok_float tok_int pdg_valid None file SelAll
+        = Ok (expected tok_float tok_int pdg_valid (doc_of fmt dec s) (os_format s) (os_attrs s)) /\
+      write_oscar fmt dec (reread tok_float tok_int pdg_valid fmt dec s) = Ok file.
+  Proof.
+    intros Hi Hne Hfmt Hstd K1 K2 K3 Hfs Hrt.
+    assert (Hp : printable fmt s).
+    { unfold printable. eapply Forall_impl; [|exact Hrt]. intros ev Hev. eapply Forall_impl; [|exact Hev].
+      intros p (row & _ & Hrow & _). exists row. exact Hrow. }
+    pose proof (doc_wf tok_float tok_int pdg_valid fmt dec dec_numeric dec_int s Hi Hne Hfmt Hstd K1 K2 K3 Hfs Hrt) as Hwf.
+    destruct (read_back tok_float tok_int pdg_valid fmt dec s _ _ Hi Hp Hne Hwf) as (file & Hw & Hl).
+    exists file. repeat split; try assumption.
+    rewrite (rewrite_fixpoint tok_float tok_int pdg_valid fmt dec s Hi Hne Hrt). exact Hw.
+  Qed.
+
+  (* custom ASCII files: any duplicate-free list of known attributes *)
+  Theorem ascii_roundtrip s :
+    Inv s -> os_events s <> [] -> os_format s = "ASCII" -> NoDup (os_attrs s) -> Forall known (os_attrs s) ->
+    oscar_format (nth 0 (os_header s) []) = Ok ("ASCII", os_attrs s) ->
+    kind_scan (nth 0 (os_header s) []) = SOther -> kind_scan (nth 1 (os_header s) []) = SOther ->
+    kind_scan (nth 2 (os_header s) []) = SOther ->
+    footers_std tok_float (os_footers s) (os_counts s) ->
+    Forall (Forall (fun p => exists vs, has_vals (cs_ascii (os_attrs s)) p vs)) (os_events s) ->
+    exists file,
+      write_oscar fmt dec s = Ok file /\
+      load tok_float tok_int pdg_valid None file SelAll
+        = Ok (expected tok_float tok_int pdg_valid (doc_of fmt dec s) "ASCII" (os_attrs s)) /\
+      write_oscar fmt dec (reread tok_float tok_int pdg_valid fmt dec s) = Ok file.
+  Proof.
+    intros Hi Hne Hf Hnd Hk Hfmt K1 K2 K3 Hfs Hv.
+    pose proof (oscar_roundtrip_generic s Hi Hne) as G. rewrite Hf in G. apply G; try assumption.
+    - right; right; reflexivity.
+    - eapply Forall_impl; [|exact Hv]. intros ev Hev. eapply Forall_impl; [|exact Hev].
+      intros p (vs & Hp). rewrite <- Hf. rewrite Hf. eapply row_rt_ascii; eassumption.
   Qed.
 End F.
